@@ -12,11 +12,12 @@
    Line formats: see harness/c09_remote.c -/
 import Drv.Util
 import Nq.RemoteSmtp
+import Nq.RemoteBuf
 import Nq.RspawnReport
 import Nq.RemoteConnect
 import Nq.Spec.RemoteVerdict
 
-open Nq Nq.SmtpOut Nq.RemoteSmtp Nq.RspawnReport Nq.RemoteConnect Nq.Spec.RemoteVerdict Drv
+open Nq Nq.SmtpOut Nq.RemoteSmtp Nq.RemoteBuf Nq.RspawnReport Nq.RemoteConnect Nq.Spec.RemoteVerdict Drv
 
 def parseWPoint (s : String) : Option (Option WPoint) :=
   if s == "none" then some none
@@ -69,34 +70,53 @@ def parseOut (out : Bytes) : Option Obs :=
 def oracleLabel (a : Args) (msg wire wtry : Bytes) (wf : Option WPoint) : Option WPoint :=
   oracleWf wf ((rblast msg).isSome && !a.msgErr && critWrite a (encodedBody msg) wire wtry)
 
-/-- the failing write as the model is told: `final` iff by the bytes it was issued after `flagcritical = 1`
-    (never when blast() stops at a read error or a partial last line) -/
-def modelLabel (a : Args) (msg wire wtry : Bytes) (wf : Option WPoint) : Option WPoint :=
-  oracleWf wf ((rblast msg).isSome && !a.msgErr && flagWrite a (encodedBody msg) wire wtry)
+/-- the buffered model's script. The harness names a failing write of blast() "body" and gives the number `wk` of the
+    failing `write()` call of the conversation; HELO, MAIL, the `n` RCPTs and DATA are the `3 + n` calls before blast(),
+    so it is call number `wk - (3 + n) - 1` (from 0) of blast(): the model is run with the write script "that call
+    fails, every other call takes at most `wchunk` bytes (0 = all)" and computes the label `body`/`final`, the bytes of
+    the failing write and the wire itself. Other failing writes are command writes (`WB.cmd`). -/
+def scriptB (n : Nat) (wf : Option WPoint) (wk wchunk encLen : Nat) : WB :=
+  let ent := if wchunk == 0 then SMTPTO else wchunk
+  match wf with
+  | some .body => .blast (List.replicate (wk - (3 + n) - 1) ent ++ [0])
+  | none => if wchunk == 0 then .cmd none else .blast (List.replicate (encLen + 8) ent)
+  | w => .cmd w
+
+/-- executable form of `C09_flag_computed` on the implementation's bytes: the duplicate flag a failing write of blast()
+    must carry -/
+def flagExpected (a : Args) (msg wire wtry : Bytes) : Bool :=
+  (rblast msg).isSome && !a.msgErr && flagWrite a (encodedBody msg) wire wtry
 
 def handleS (st : Stats) (line : String) (f : List String) : IO Stats := do
   match f with
-  | [_, ipS, heloS, senderS, rcptsS, msgS, msgerrS, streamS, chunk, wk, endmode, wlabelS, wtryS, outS, wireS, exitS, relayS] =>
+  | [_, ipS, heloS, senderS, rcptsS, msgS, msgerrS, streamS, chunk, wk, endmode, wlabelS, wtryS, outS, wireS, exitS, relayS, wchunkS] =>
     match parseIp ipS, unhex heloS, unhex senderS, parseRcpts rcptsS, unhex msgS, unhex streamS,
           parseWPoint wlabelS, unhex outS, unhex wireS, unhex relayS, unhex wtryS with
     | some host, some helo, some sender, some rcpts, some msg, some stream, some wf, some out, some wire, some relay, some wtry =>
       let a : Args := { host, helo, sender, rcpts, msg, msgErr := msgerrS == "1" }
-      let mwf := modelLabel a msg wire wtry wf
-      let sc : Script := { stream, wfail := mwf }
-      let mlab := if mwf == some .final then "final" else wlabelS
+      let wb := scriptB rcpts.length wf wk.toNat! wchunkS.toNat! (encodedBody msg).length
+      let sb : ScriptB := { stream, wb }
+      let mwf := effWf a wb
+      let mlab := if mwf == some .final then "final" else if mwf == some .body then "body" else wlabelS
       let inKey := hash (String.intercalate " " [ipS, heloS, senderS, rcptsS, msgS, msgerrS, streamS, mlab])
       let fresh := !st.seen.contains inKey
       let mut st := { st with cases := st.cases + 1, seen := st.seen.insert inKey }
       st := st.bump "smtp_cases"
       st := st.bump ("chunk" ++ chunk)
+      if wchunkS != "0" then st := st.bump "short_writes_in_blast"
       st := st.bump ("wfail_" ++ (if wlabelS.startsWith "rcpt" then "rcpt" else mlab))
       st := st.bump ("nrcpt" ++ toString (min rcpts.length 4))
-      -- model
-      let res := smtpRun a sc
-      let mout := render res
+      -- model: smtp() with blast() over the 1024-byte buffer; report, exact wire, bytes of the failing write
+      let res := smtpRunB a sb
+      let mout := renderB res
       let mrelay := rreport 0 out
-      if !(mout == out && wireAgrees res msg wire && exitS == "0" && mrelay == relay) then
-        IO.println s!"DISAGREE kind=S in={streamS} ip={ipS} helo={heloS} sender={senderS} rcpts={rcptsS} msg={msgS} msgerr={msgerrS} chunk={chunk} wk={wk} endmode={endmode} wlabel={wlabelS} impl_out={outS} impl_wire={wireS} exit={exitS} impl_relay={relayS} model_out={hex mout} model_wire={hex res.wire} model_relay={hex mrelay}"
+      let mtried := match res.tried with | some t => t | none => []
+      if wf == some .body then
+        st := st.bump ("blast_fail_write" ++ toString (min (wk.toNat! - (3 + rcpts.length) - 1) 4))
+        st := st.bump ("model_label_" ++ (if mwf == some .final then "final" else if mwf == some .body then "body" else "none"))
+      if !(mout == out && res.wire == wire && exitS == "0" && mrelay == relay && mtried == (if wf == some .body then wtry else []) &&
+           ((wf == some .body) == res.tried.isSome)) then
+        IO.println s!"DISAGREE kind=S in={streamS} ip={ipS} helo={heloS} sender={senderS} rcpts={rcptsS} msg={msgS} msgerr={msgerrS} chunk={chunk} wk={wk} endmode={endmode} wchunk={wchunkS} wlabel={wlabelS} impl_out={outS} impl_wire={wireS} impl_wtry={wtryS} exit={exitS} impl_relay={relayS} model_out={hex mout} model_wire={hex res.wire} model_wtry={hex mtried} model_relay={hex mrelay}"
         st := { st with disagree := st.disagree + 1 }
       -- oracle, on the implementation's output
       let (codes, wfS) := match specCodes stream with
@@ -119,6 +139,11 @@ def handleS (st : Stats) (line : String) (f : List String) : IO Stats := do
         if !verdictOK e.v o then why := why ++ "wrong_class,"
         if o.rl != e.rl then why := why ++ "recipient_classes,"
         if !wireOrderQ a (encodedBody msg) wire o (wf == some .quit) then why := why ++ "commands_out_of_order_or_missing,"
+        if wf == some .body then
+          -- C09_blast_writes_prefix / C09_flag_computed, evaluated on the implementation's bytes
+          if wtry.isEmpty || !(wire ++ wtry).isPrefixOf (fullCmds a ++ encodedBody msg) then why := why ++ "failing_write_not_a_prefix_of_the_encoding,"
+          if o.dup != flagExpected a msg wire wtry then why := why ++ "duplicate_flag_not_as_computed,"
+          if flagExpected a msg wire wtry then st := st.bump "flag_expected_by_bytes"
         st := st.bump ("verdict_" ++ String.singleton (Char.ofNat o.ml.toNat) ++ (if o.dup then "_dup" else ""))
         if fresh && (o.ml != cK || stream.contains DASH) then st := { st with nontrivial := st.nontrivial + 1 }
       -- the relayed line
@@ -128,7 +153,7 @@ def handleS (st : Stats) (line : String) (f : List String) : IO Stats := do
       if !relayWithin out relay then why := why ++ "relay_text_not_from_output,"
       if headB relay == cK && !(e.v == .K && e.rl.head? == some lR) then why := why ++ "relay_K_but_not_accepted,"
       if why != "" then
-        IO.println s!"ORACLE kind=S in={streamS} why={why} ip={ipS} helo={heloS} sender={senderS} rcpts={rcptsS} msg={msgS} msgerr={msgerrS} chunk={chunk} wk={wk} endmode={endmode} wlabel={wlabelS} wtry={wtryS} out={outS} wire={wireS} exit={exitS} relay={relayS} expected={verdictStr e.v}"
+        IO.println s!"ORACLE kind=S in={streamS} why={why} ip={ipS} helo={heloS} sender={senderS} rcpts={rcptsS} msg={msgS} msgerr={msgerrS} chunk={chunk} wk={wk} endmode={endmode} wchunk={wchunkS} wlabel={wlabelS} wtry={wtryS} out={outS} wire={wireS} exit={exitS} relay={relayS} expected={verdictStr e.v}"
         st := { st with oracle := st.oracle + 1 }
       if fresh && st.samples < 3 && wfS && rcpts.length ≥ 2 && stream.contains DASH && codes.length ≥ 5 then
         IO.println s!"SAMPLE kind=S stream={streamS} nrcpt={rcpts.length} wlabel={wlabelS} out={outS} relay={relayS}"
@@ -193,7 +218,8 @@ def handleM (st : Stats) (line : String) (f : List String) : IO Stats := do
       let fresh := !st.seen.contains inKey
       let mut st := { st with cases := st.cases + 1, seen := st.seen.insert inKey }
       st := st.bump "main_cases"
-      let res := mainRun dnsret (lit "host.example") cs a ⟨stream, modelLabel a a.msg wire wtry wf⟩
+      let wb := scriptB 1 wf wk.toNat! 0 0
+      let res := mainRun dnsret (lit "host.example") cs a ⟨stream, effWf a wb⟩
       let mtrace := traceStr (connectTrace dnsret cs)
       if !(render res == out && wireAgrees res a.msg wire && exitS == "0" && mtrace == traceS) then
         IO.println s!"DISAGREE kind=M in={streamS} dnsret={dnsS} cands={candsS} wk={wk} wlabel={wlabelS} impl_out={outS} impl_wire={wireS} exit={exitS} impl_trace={traceS} model_out={hex (render res)} model_wire={hex res.wire} model_trace={mtrace}"
